@@ -219,3 +219,65 @@ def effects_of(prog):
     if prog.path not in _EFF:
         _EFF[prog.path] = Effects(prog)
     return _EFF[prog.path]
+
+
+def field_accesses(prog, owner_ty_substr, field_name):
+    """every direct access to field `field_name` of a struct whose type string contains `owner_ty_substr`:
+    -> list of (body, block, kind, detail) with kind in
+       'store' (assignment into the field or below it), 'mut-borrow:<callee>' (a &mut of exactly the field that is
+       argument 0 of the call ending the block), 'mut-borrow' (any other &mut reaching the field), 'move-out', 'read'"""
+    from .mir import callee_path, short
+    from .panics import reachable_from, public_api
+    roots = public_api(prog) + [b for b in prog.nonderived_bodies() if b.impl_trait]      # trait methods are called by foreign code
+    live = set(b.id for b in reachable_from(prog, roots))
+    out = []
+
+    def hits(proj, base_ty):
+        # index of the projection element that is this field on the owner type
+        cur = base_ty
+        res = []
+        for j, e in enumerate(proj):
+            if e.get("k") == "field" and e.get("name") == field_name and owner_ty_substr in (cur or ""):
+                res.append(j)
+            cur = e.get("ty", cur) if e.get("k") != "deref" else (cur or "").lstrip("&").replace("mut ", "", 1) if cur else cur
+        return res
+
+    for b in prog.nonderived_bodies():
+        if b.id not in live:
+            continue        # dead code: not reachable from any public function
+
+        def lty(pl):
+            return b.locals[pl["local"]]["ty"] if pl["local"] < len(b.locals) else ""
+        for i, blk in enumerate(b.blocks):
+            for st_ in blk["stmts"]:
+                if st_["k"] != "assign":
+                    continue
+                pl = st_["place"]
+                if hits(pl.get("proj", []), lty(pl)):
+                    out.append((b, i, "store", None))
+                rv = st_["rv"]
+                if rv["k"] in ("ref", "addr_of"):
+                    pr = rv["place"].get("proj", [])
+                    h = hits(pr, lty(rv["place"]))
+                    if not h:
+                        continue
+                    if not rv.get("mut"):
+                        out.append((b, i, "read", None))
+                        continue
+                    loc = pl["local"]
+                    t = blk["term"]
+                    callee = short(callee_path(t) or "") if t["k"] == "call" else ""
+                    arg0 = t["args"][0].get("place", {}).get("local") if t["k"] == "call" and t["args"] else None
+                    if callee and arg0 == loc and h[-1] == len(pr) - 1:
+                        out.append((b, i, "mut-borrow:" + callee, None))
+                    else:
+                        out.append((b, i, "mut-borrow", callee))
+                elif rv["k"] == "use" and rv["op"].get("k") in ("move", "copy"):
+                    pr = rv["op"]["place"].get("proj", [])
+                    h = hits(pr, lty(rv["op"]["place"]))
+                    if h:
+                        out.append((b, i, "move-out" if rv["op"]["k"] == "move" and h[-1] == len(pr) - 1 else "read", None))
+                elif rv["k"] == "discriminant":
+                    if hits(rv["place"].get("proj", []), lty(rv["place"])):
+                        out.append((b, i, "read", None))
+    return out
